@@ -346,7 +346,12 @@ func run(cfg runConfig) (*runResult, error) {
 	}
 	if cfg.prop == "C19" && cfg.funcs == "" {
 		ao, aerrs := e.asmObligations(cfg.repo, lr)
-		e.obls = append(e.obls, ao...)
+		for _, o := range ao {
+			if !strings.HasSuffix(o.Name, ".ct-trace") { // trace equality belongs to C17
+				e.obls = append(e.obls, o)
+			}
+		}
+		e.obls = append(e.obls, buildConfigObligation(cfg.repo))
 		for _, x := range aerrs {
 			res.errors = append(res.errors, x)
 		}
@@ -358,6 +363,22 @@ func run(cfg runConfig) (*runResult, error) {
 		td := e.loadTables(cfg.repo)
 		if td.err != nil {
 			res.errors = append(res.errors, td.err.Error())
+		}
+	}
+	if cfg.prop == "C17" && cfg.funcs == "" {
+		// the SSE2 lookups of the default build: trace equality over all indices (asm.go)
+		ao, aerrs := e.asmObligations(cfg.repo, lr)
+		n := 0
+		for _, o := range ao {
+			if strings.HasSuffix(o.Name, ".ct-trace") {
+				e.obls = append(e.obls, o)
+				n++
+			}
+		}
+		e.obls = append(e.obls, buildConfigObligation(cfg.repo))
+		res.errors = append(res.errors, aerrs...)
+		if n != 2 && len(aerrs) == 0 {
+			res.errors = append(res.errors, fmt.Sprintf("the assembly front end produced %d trace obligations, expected 2", n))
 		}
 	}
 	if e.tables != nil {
